@@ -1,6 +1,6 @@
 (** * C11 — all physical implementations of an operator agree.
     Only statements, each closed by [exact], with its assumptions printed. *)
-From RL Require Import Model.Exec Proofs.ExecP Proofs.MergeJoinP Proofs.SortAggP Proofs.SimpleAggP.
+From RL Require Import Model.Exec Proofs.ExecP Proofs.MergeJoinP Proofs.MergeLeftP Proofs.SortAggP Proofs.SimpleAggP.
 From Coq Require Import Permutation.
 Open Scope Z_scope.
 
@@ -40,6 +40,12 @@ Theorem merge_inner_eq_nested_loop : forall cond lk rk nl nr L R, sorted_on lk (
   equi_cond cond lk rk (concat L) (concat R) ->
   exists out, x_nljoin JInner cond nr L R = Some out /\ Permutation (x_mergejoin JInner lk rk nl nr L R) out.
 Proof. exact mergejoin_inner_eq_nljoin. Qed.
+
+(** the LEFT OUTER merge join over sorted inputs returns, for every left row in order, its matches on
+    the key (SQL equality: a NULL key matches nothing) or the row padded with NULLs when there are none *)
+Theorem merge_left_outer_rows : forall lk rk nl nr L R, sorted_on lk (concat L) -> sorted_on rk (concat R) ->
+  x_mergejoin JLeft lk rk nl nr L R = left_rows_spec lk rk nr (concat L) (concat R).
+Proof. exact mergejoin_left_rows. Qed.
 
 (** sort aggregation (one group per run of equal consecutive keys) over input sorted on the group keys
     = hash aggregation, as LISTS: same groups in the same first-seen order, same aggregate values *)
@@ -84,6 +90,7 @@ Print Assumptions hash_anti_eq_nested_loop.
 Print Assumptions joins_independent_of_chunking.
 Print Assumptions merge_inner_eq_hash.
 Print Assumptions merge_inner_eq_nested_loop.
+Print Assumptions merge_left_outer_rows.
 Print Assumptions sort_aggregation_eq_hash_aggregation.
 Print Assumptions simple_aggregation_eq_rowwise.
 Print Assumptions topn_eq_sort_then_limit.
